@@ -13,7 +13,7 @@ import numpy as np
 from .. import groups as G
 from .. import ref_graded as RG
 from .. import universe as U
-from ..arrays import build, describe, embed, exact_equal, frame_of, gt_of, index_key, sym_name
+from ..arrays import oddpos_key, build, describe, embed, exact_equal, frame_of, gt_of, index_key, sym_name
 from ..runner import Stats, reset_library_state
 
 PROP = "C05"
@@ -168,7 +168,7 @@ def compare_blocks(got, exp, absval=False):
     return errs
 
 
-def fuse_case_failures(d, groups, st=None, nested=None, cache=None):
+def fuse_case_failures(d, groups, st=None, nested=None, cache=None, empty=True):
     """d: array descriptor; groups: tuple of tuples; nested: optional second grouping applied to the result"""
     from symmray import abelian_core as ac
 
@@ -284,6 +284,11 @@ def fuse_case_failures(d, groups, st=None, nested=None, cache=None):
                 st.transitions += 2
         except Exception as e:
             fails.append((f"C05/conj-unfuse/raised-{type(e).__name__}", f"groups={groups}: {e}"))
+    # empty groups: ignored with expand_empty=False, a new singlet axis (identity charge) at the group's position otherwise
+    if results and empty and n <= 3:
+        plain = results[keys[0]]
+        for kind, det in empty_group_failures(x, groups, plain, sym, ferm, st):
+            fails.append((f"C05/fuse-empty-group/{kind}", f"groups={groups}: {det}"))
     # the conjugate taken AFTER the array was fused (its index objects have been through the fuse machinery) is an
     # input like any other: fusing it with the same groups must follow its own directions
     if results:
@@ -312,6 +317,52 @@ def fuse_case_failures(d, groups, st=None, nested=None, cache=None):
         except Exception as e:
             fails.append((f"C05/fuse-of-conj-after-fuse/raised-{type(e).__name__}", f"groups={groups}: {e}"))
     return fails, nontrivial
+
+
+def _same_array(a, b, ferm):
+    return (
+        a.charge == b.charge
+        and tuple(index_key(i) for i in a.indices) == tuple(index_key(i) for i in b.indices)
+        and set(a.blocks) == set(b.blocks)
+        and all(exact_equal(a.blocks[k], b.blocks[k]) for k in a.blocks)
+        and (not ferm or ({k for k, v in a.phases.items() if v == -1} == {k for k, v in b.phases.items() if v == -1} and oddpos_key(a) == oddpos_key(b)))
+    )
+
+
+def empty_group_failures(x, groups, plain, sym, ferm, st=None):
+    out = []
+    e = G.identity(sym)
+    g0 = min(ax for g in groups for ax in g)
+    for p in range(len(groups) + 1):
+        ge = groups[:p] + ((),) + groups[p:]
+        try:
+            r0 = x.fuse(*ge, expand_empty=False)
+            r1 = x.fuse(*ge)
+        except Exception as ex:
+            out.append((f"raised-{type(ex).__name__}", f"empty group at position {p}: {ex}"))
+            continue
+        if st is not None:
+            st.transitions += 2
+        if not _same_array(r0, plain, ferm):
+            out.append(("ignored", f"empty group at position {p} with expand_empty=False changes the result"))
+        pos = g0 + p
+        ok = r1.ndim == plain.ndim + 1 and r1.charge == plain.charge and len(r1.blocks) == len(plain.blocks)
+        if ok:
+            keys = [index_key(i) for i in r1.indices]
+            # documented: the new singlet inherits its direction from the axis before it (else after it, else non-dual)
+            want_dual = bool(plain.indices[pos - 1].dual) if pos > 0 else (bool(plain.indices[0].dual) if plain.ndim else False)
+            ok = keys[pos] == (((e, 1),), want_dual, None) and tuple(keys[:pos] + keys[pos + 1 :]) == tuple(index_key(i) for i in plain.indices)
+        if ok:
+            for sec, blk in plain.blocks.items():
+                s1 = sec[:pos] + (e,) + sec[pos:]
+                if s1 not in r1.blocks or not exact_equal(r1.blocks[s1], np.expand_dims(np.asarray(blk), pos)):
+                    ok = False
+                    break
+        if ok and ferm:
+            ok = not any(v == -1 for v in r1.phases.values()) and oddpos_key(r1) == oddpos_key(plain)
+        if not ok:
+            out.append(("expanded", f"empty group at position {p}: expected the plain result with a singlet axis (identity charge) at {pos}"))
+    return out
 
 
 def conj_key(k):
@@ -370,7 +421,7 @@ def run_group(ctx, group):
             for gi, grp in enumerate(gl):
                 if slice_mod > 1 and (gi + i) % slice_mod != ctx.seed % slice_mod:
                     continue
-                fails, nontrivial = fuse_case_failures(d, grp, st)
+                fails, nontrivial = fuse_case_failures(d, grp, st, empty=(ctx.thorough or n <= 2 or len(grp) == 1))
                 st.evaluations += 1
                 st.traces += 1
                 st.nontrivial += int(nontrivial)
